@@ -36,6 +36,8 @@ type pfmWorld struct {
 	routes []any
 	obs    []any
 	ops    []any // operations of the current route
+	esctr  []any // after the origin transfer and after every relayer operation: tracked total escrow and escrow-account balances of every chain
+	dead   bool  // a relayer transaction failed: the world is not used any further
 	init0  []any
 }
 
@@ -124,6 +126,7 @@ func (pw *pfmWorld) relay(si int, pkt channeltypes.Packet, timeouts []int, depth
 		w.block(dstEp.Chain)
 		pw.emit("timeout", si, pkt.SourceChannel, pkt.Sequence)
 		tr := w.timeoutPacket(srcEp, pkt)
+		pw.snap()
 		if len(tr.sent) == 1 {
 			pkt = tr.sent[0] // retried
 			continue
@@ -132,9 +135,11 @@ func (pw *pfmWorld) relay(si int, pkt channeltypes.Packet, timeouts []int, depth
 	}
 	pw.emit("recv", di, pkt.DestinationChannel, pkt.Sequence)
 	rr := w.recv(dstEp, pkt)
+	pw.snap()
 	if rr.ack != nil {
 		pw.emit("ack", si, pkt.SourceChannel, pkt.Sequence)
 		tr := w.ackPacket(srcEp, pkt, rr.ack)
+		pw.snap()
 		return tr.ack
 	}
 	if len(rr.sent) != 1 {
@@ -146,7 +151,36 @@ func (pw *pfmWorld) relay(si int, pkt channeltypes.Packet, timeouts []int, depth
 	}
 	pw.emit("ack", si, pkt.SourceChannel, pkt.Sequence)
 	tr := w.ackPacket(srcEp, pkt, up)
+	pw.snap()
 	return tr.ack
+}
+
+// snap records, for every chain, the tracked total escrow of every denomination and the balances of the chain's
+// transfer escrow accounts (property C31 is evaluated on these after every operation).
+func (pw *pfmWorld) snap() {
+	var out []any
+	for i, c := range pw.w.chains {
+		ctx := c.GetContext()
+		app := c.GetSimApp()
+		var escs, held [][]string
+		for _, coin := range app.TransferKeeper.GetAllTotalEscrowed(ctx) {
+			escs = append(escs, []string{coin.Denom, coin.Amount.String()})
+		}
+		addrs := make([]string, 0)
+		for a := range pw.accts[i] {
+			if pw.labels[a][0] == "escrow" {
+				addrs = append(addrs, a)
+			}
+		}
+		sort.Strings(addrs)
+		for _, a := range addrs {
+			for _, coin := range app.BankKeeper.GetAllBalances(ctx, sdk.MustAccAddressFromBech32(a)) {
+				held = append(held, []string{a, coin.Denom, coin.Amount.String()})
+			}
+		}
+		out = append(out, map[string]any{"esc": escs, "held": held})
+	}
+	pw.esctr = append(pw.esctr, out)
 }
 
 type routePlan struct {
@@ -205,15 +239,49 @@ func (pw *pfmWorld) runRoute(pl routePlan, ui int, denom string, amt sdkmath.Int
 		recv0 = "pfm"
 	}
 	pw.ops = nil
+	pw.esctr = nil
 	tts := uint64(w.coord.CurrentTime.UnixNano()) + uint64(10*time.Minute)
 	pkt, err := w.transfer(w.chains[c0], &acct, "transfer", ep0.ChannelID, sdk.NewCoin(denom, amt), recv0, clienttypes.ZeroHeight(), tts, memo)
 	route := map[string]any{"chain": c0, "sender": sender, "chan": ep0.ChannelID, "denom": denom, "amt": amt.String(),
 		"recv": recv0, "memo": memoModel, "timeouts": pl.timeouts, "ok": err == nil}
+	pw.snap()
+	rec := map[string]any{"route": route, "tag": tag}
 	if err == nil {
-		pw.relay(c0, *pkt, pl.timeouts, 0)
+		// a relayer transaction that fails (or panics) leaves the route unfinished: recorded as an outcome, the world is
+		// not used any further
+		if panicked, msg := hx.Catch(func() { pw.relay(c0, *pkt, pl.timeouts, 0) }); panicked {
+			if len(msg) > 400 {
+				msg = msg[:400]
+			}
+			rec["failed"] = msg
+			pw.dead = true
+		}
 	}
-	pw.routes = append(pw.routes, map[string]any{"route": route, "ops": pw.ops, "tag": tag})
+	rec["ops"] = pw.ops
+	rec["esctr"] = pw.esctr
+	pw.routes = append(pw.routes, rec)
 	pw.obs = append(pw.obs, pw.observe())
+}
+
+// unwindFailRoute: the shape property C31 needs. A voucher of the far end's token (it travelled n-1 -> ... -> 0 in the
+// seeding forward) is sent 0 -> 1 with a forward to 2 whose receiver is invalid: chain 1 unescrows it, burns it on the
+// forward (it is a voucher of the forward channel) and, on the error acknowledgement, mints it back into the refund
+// channel's escrow account.
+func (pw *pfmWorld) unwindFailRoute(timeoutInstead bool) {
+	c := pw.w.chains[0]
+	for ui := 1; ui <= 3; ui++ {
+		for _, coin := range c.GetSimApp().BankKeeper.GetAllBalances(c.GetContext(), c.SenderAccounts[ui].SenderAccount.GetAddress()) {
+			if strings.HasPrefix(coin.Denom, "ibc/") && coin.Amount.GTE(sdkmath.NewInt(300)) {
+				pl := routePlan{chainsIdx: []int{0, 1, 2}, retries: []int{0, 0}, timeouts: []int{0, 0}, badRecv: !timeoutInstead, badChanAt: -1}
+				if timeoutInstead {
+					pl.timeouts = []int{0, 1}
+				}
+				pw.runRoute(pl, ui, coin.Denom, sdkmath.NewInt(300), "corpus-unwind-fail")
+				return
+			}
+		}
+	}
+	pw.w.t.Fatalf("harness: no voucher on chain 0 for the unwinding corpus route")
 }
 
 // observe: every tracked account's balances, voucher supplies, total escrows, in-flight records, per chain.
@@ -389,8 +457,15 @@ func famPFM(t *testing.T, r *hx.Rng, o *hx.Out) {
 			}
 			pw.runRoute(pl, 1+i%3, bond, sdkmath.NewInt(5000), "seed-vouchers")
 		}
-		routes := hx.N(8, 16)
-		for j := 0; j < routes; j++ {
+		// corpus: failed unwinding forwards (error acknowledgement, then final timeout), then the vouchers go home
+		if !pw.dead {
+			pw.unwindFailRoute(false)
+		}
+		if !pw.dead {
+			pw.unwindFailRoute(true)
+		}
+		routes := hx.N(7, 16)
+		for j := 0; j < routes && !pw.dead; j++ {
 			pw.randomRoute(n - 1)
 		}
 		pw.record(o, fmt.Sprintf("line-%d", n))
